@@ -17,6 +17,7 @@ mod suite_ffixed;
 mod suite_fanyorder;
 mod suite_fmap;
 mod suite_fclone;
+mod suite_fidx;
 mod suite_forest;
 mod suite_fspec;
 mod suite_rt;
@@ -76,6 +77,7 @@ fn main() {
         "build" => suite_build::run(seed, count, tier, &mut sink),
         "fclone" => suite_fclone::run(seed, count, tier, &mut sink),
         "lex" => suite_lex::run(seed, count, tier, &mut sink),
+        "fidx" => suite_fidx::run(seed, count, tier, &mut sink),
         _ => {
             eprintln!("unknown suite {}", suite);
             std::process::exit(2);
